@@ -65,7 +65,12 @@ def opXactFin (args : List String) : String :=
 
 def item? (j : Lean.Json) : Option JItem :=
   match J.str? j "bucket" with
-  | some a => some (.bucket a)
+  | some a =>
+    match (J.str? j "how").getD "A" with
+    | "A" => some (.bucket .A a)
+    | "bucket" => some (.bucket .bucket a)
+    | "account" => some (.bucket .accountDefault a)
+    | _ => none
   | none => (J.obj? j "xact").bind (fun xj => (lxact? xj).map JItem.xact)
 
 def dedup (l : List String) : List String :=
